@@ -9,17 +9,34 @@ open Fv.Chan.Topic
 
 /-! ## Programs -/
 
-/-- no receiver `close()` in the program (receiver drops, clones, conversions are allowed) -/
-def noRClose (ops : List Op) : Bool := ops.all (fun op => match op with | .rClose _ => false | _ => true)
+/-- `op` is not a `subscribe` on a receiver handle that is closed in state `s` -/
+def okSub (s : St) : Op → Bool
+  | .subscribe r _ =>
+    match s.rxs[r]? with
+    | some x => !x.closed
+    | none => true
+  | _ => true
+
+/-- the program never calls `subscribe` on a handle that is closed at that moment (close, drop,
+clone, convert, unsubscribe … of receivers are all allowed) -/
+def okSubs : St → List Op → Bool
+  | _, [] => true
+  | s, op :: ops => okSub s op && okSubs (step s op).1 ops
+
+theorem okSub_spec (s : St) (op : Op) (h : okSub s op = true) : OkSub s op := by
+  intro r t x he hx
+  subst he
+  simpa [okSub, hx] using h
+
+theorem okSubs_spec (s : St) (ops : List Op) (h : okSubs s ops = true) : OkSubs s ops := by
+  induction ops generalizing s with
+  | nil => trivial
+  | cons op ops ih =>
+    simp only [okSubs, Bool.and_eq_true] at h
+    exact ⟨okSub_spec s op h.1, ih _ h.2⟩
 
 /-- no sender `clone()` in the program: a single sender handle -/
 def noSClone (ops : List Op) : Bool := ops.all (fun op => match op with | .sClone _ => false | _ => true)
-
-theorem noRClose_spec (ops : List Op) (h : noRClose ops = true) : NoRClose ops := by
-  intro op hop r he
-  subst he
-  have := List.all_eq_true.1 h _ hop
-  simp at this
 
 theorem noSClone_spec (ops : List Op) (h : noSClone ops = true) : ∀ op ∈ ops, ∀ q, op ≠ .sClone q := by
   intro op hop r he
@@ -56,21 +73,22 @@ theorem C08_order_once (cap : Nat) (k : Kind) (ops : List Op) (r : Nat) :
   have h := GI_grun _ ops (GI_ginit cap k)
   exact ⟨h.hist r, h.inc r, h.bnd r⟩
 
-/-- **Exactly the subscribed topics, minus full mailboxes** — partial: programs without a
-receiver `close()` (see `C08_fails_close`). The publishes that entered `r`'s mailbox are exactly
+/-- **Exactly the subscribed topics, minus full mailboxes** — partial: programs that never call
+`subscribe` on a closed receiver handle (see `C08_fails_close_clone`; receiver close, drop,
+clone, conversion are all covered). The publishes that entered `r`'s mailbox are exactly
 those made while `r` was subscribed to the topic (open live handle, topic in its subscription
 set at publish time) and its mailbox was not full: the only omission is the newest message for a
 full mailbox, and never a message of a topic it was not subscribed to. -/
-theorem C08_routing_partial (cap : Nat) (k : Kind) (ops : List Op) (hops : noRClose ops = true) (r : Nat) :
+theorem C08_routing_partial (cap : Nat) (k : Kind) (ops : List Op) (hops : okSubs (init cap k) ops = true) (r : Nat) :
     let g := grun (ginit cap k) ops
     g.acc r = owed g.pubs r ∧
     g.got r ++ bufOf g.st r = (owed g.pubs r).map (msgAt g.pubs) := by
-  have h := EI_grun _ ops (noRClose_spec ops hops) (EI_ginit cap k)
+  have h := EI_grun _ ops (okSubs_spec _ ops hops) (EI_ginit cap k)
   exact ⟨h.exact r, by rw [← h.exact r]; exact h.gi.hist r⟩
 
 /-- never a foreign topic (same restriction): every message `r` obtained was published to a
 topic `r` was subscribed to at that publish, while its mailbox had room -/
-theorem C08_no_foreign_topic_partial (cap : Nat) (k : Kind) (ops : List Op) (hops : noRClose ops = true) (r : Nat)
+theorem C08_no_foreign_topic_partial (cap : Nat) (k : Kind) (ops : List Op) (hops : okSubs (init cap k) ops = true) (r : Nat)
     (m : Msg) (hm : m ∈ (grun (ginit cap k) ops).got r) :
     ∃ (i : Nat) (p : Pub), (grun (ginit cap k) ops).pubs[i]? = some p ∧ m = (p.t, p.v) ∧ p.subscribed r = true ∧ p.full r = false := by
   have h := (C08_routing_partial cap k ops hops r).2
@@ -87,7 +105,7 @@ theorem C08_no_foreign_topic_partial (cap : Nat) (k : Kind) (ops : List Op) (hop
 
 /-- nothing owed is lost (same restriction): a publish made while `r` was subscribed and its
 mailbox had room is in `acc r`, hence (by `C08_order_once`) obtained or still buffered -/
-theorem C08_no_loss_partial (cap : Nat) (k : Kind) (ops : List Op) (hops : noRClose ops = true) (r i : Nat) (p : Pub)
+theorem C08_no_loss_partial (cap : Nat) (k : Kind) (ops : List Op) (hops : okSubs (init cap k) ops = true) (r i : Nat) (p : Pub)
     (hp : (grun (ginit cap k) ops).pubs[i]? = some p) (hs : p.subscribed r = true) (hf : p.full r = false) :
     i ∈ (grun (ginit cap k) ops).acc r := by
   rw [(C08_routing_partial cap k ops hops r).1]
@@ -118,7 +136,7 @@ theorem DI_exec (cap : Nat) (k : Kind) (ops : List Op) (h : noSClone ops = true)
     rw [exec_cons]
     exact ih (fun o ho => hs o (List.mem_cons_of_mem _ ho)) _ (DI_step s op (hs op (List.mem_cons_self ..)) hd)
 
-/-- the part of the routing invariant that survives receiver `close()` holds after every program -/
+/-- the unguarded part of the routing invariant holds after every program -/
 theorem RI_exec (cap : Nat) (k : Kind) (ops : List Op) : RI False (exec (init cap k) ops) := by
   suffices ∀ s, RI False s → RI False (exec s ops) from this _ (RI_init cap k False)
   induction ops with
@@ -224,7 +242,7 @@ one to a foreign topic; the receiver is owed exactly publish 0 and obtains it -/
 example :
     let ops := [Op.subscribe 0 1, .send 0 1 5, .send 0 1 6, .send 0 2 7, .tryRecv 0]
     let g := grun (ginit 1 .sync) ops
-    noRClose ops = true ∧ g.pubs.length = 3 ∧ owed g.pubs 0 = [0] ∧ g.acc 0 = [0] ∧ g.got 0 = [(1, 5)] ∧
+    okSubs (init 1 .sync) ops = true ∧ g.pubs.length = 3 ∧ owed g.pubs 0 = [0] ∧ g.acc 0 = [0] ∧ g.got 0 = [(1, 5)] ∧
       bufOf g.st 0 = [] := by
   decide
 
@@ -232,8 +250,17 @@ example :
 example :
     let ops := [Op.subscribe 0 1, .rClone 0, .send 0 1 5, .unsubscribe 1 1, .send 0 1 6, .recv 0, .pollNext 1, .pollNext 1]
     let g := grun (ginit 2 .async) ops
-    noRClose ops = true ∧ owed g.pubs 0 = [0, 1] ∧ owed g.pubs 1 = [0] ∧ g.got 0 = [(1, 5)] ∧ g.got 1 = [(1, 5)] ∧
+    okSubs (init 2 .async) ops = true ∧ owed g.pubs 0 = [0, 1] ∧ owed g.pubs 1 = [0] ∧ g.got 0 = [(1, 5)] ∧ g.got 1 = [(1, 5)] ∧
       bufOf g.st 0 = [(1, 6)] ∧ results (init 2 .async) ops = [.unit, .handle 1, .ok, .unit, .ok, .msg 1 5, .msg 1 5, .pending] := by
+  decide
+
+/-- a receiver is closed (not dropped) while another stays: after the close it is owed nothing
+more and obtains nothing more; what it was owed before is still handed out -/
+example :
+    let ops := [Op.subscribe 0 1, .rClone 0, .send 0 1 5, .rClose 0, .send 0 1 6, .tryRecv 0, .tryRecv 0, .tryRecv 1, .tryRecv 1]
+    let g := grun (ginit 2 .sync) ops
+    okSubs (init 2 .sync) ops = true ∧ owed g.pubs 0 = [0] ∧ owed g.pubs 1 = [0, 1] ∧
+      results (init 2 .sync) ops = [.unit, .handle 1, .ok, .ok, .ok, .msg 1 5, .empty, .msg 1 5, .msg 1 6] := by
   decide
 
 /-- Disconnected: single sender, subscribed receiver, shutdown, drain, Disconnected, and it stays -/
@@ -278,18 +305,11 @@ theorem C08_fails_F4c_clone :
       = [.unit, .ok, .handle 1, .disc, .empty, .unit, .handle 2, .empty] := by
   decide
 
-/-- close() of a receiver does not remove it from the topic lists: the closed handle (its
-subscription set is empty) obtains a message published afterwards. -/
-theorem C08_fails_close :
-    let ops := [Op.rClone 0, .subscribe 0 1, .rClose 0, .send 0 1 9, .tryRecv 0]
-    results (init 2 .sync) ops = [.handle 1, .unit, .ok, .ok, .msg 1 9] ∧
-    subscribedTo (exec (init 2 .sync) (ops.take 3)) 0 1 = false := by
-  decide
-
-/-- subscribe() is accepted on a closed handle and a clone inherits it. -/
+/-- subscribe() is accepted on a closed handle: the closed handle is registered again and obtains
+messages, and a clone inherits the subscription. -/
 theorem C08_fails_close_clone :
-    results (init 2 .sync) [Op.rClone 0, .rClose 0, .subscribe 0 1, .rClone 0, .send 0 1 5, .tryRecv 2]
-      = [.handle 1, .ok, .unit, .handle 2, .ok, .msg 1 5] := by
+    results (init 2 .sync) [Op.rClone 0, .rClose 0, .subscribe 0 1, .rClone 0, .send 0 1 5, .tryRecv 2, .tryRecv 0]
+      = [.handle 1, .ok, .unit, .handle 2, .ok, .msg 1 5, .msg 1 5] := by
   decide
 
 end Fv.Props.C08
